@@ -3,7 +3,7 @@ namespace Nix
 inductive Err where
   | indexError | outOfBounds | valueError | typeError | duplicateName | keyError
   | runtimeError | invalidUnit | incompatibleDimensions | invalidFile | attributeError
-  | overflowError
+  | overflowError | invalidSlice
   deriving DecidableEq, Repr, Inhabited
 
 def Err.toString : Err → String
@@ -13,5 +13,6 @@ def Err.toString : Err → String
   | .incompatibleDimensions => "IncompatibleDimensions" | .invalidFile => "InvalidFile"
   | .attributeError => "AttributeError"
   | .overflowError => "OverflowError"
+  | .invalidSlice => "InvalidSlice"
 instance : ToString Err := ⟨Err.toString⟩
 end Nix
